@@ -2,11 +2,10 @@
 (* Exhaustive configurations.                                                *)
 (*  - PaymentStoreMCFull.cfg (menu MCDescs): the complete state space of the *)
 (*    payment life cycle over Hashes x 1..NA attempt ids, one representative *)
-(*    route per admission class (single-shot exact / wrong amount, MPP shards*)
-(*    fitting / exceeding / other address / other total, AMP shard, blinded  *)
+(*    route per admission class (single-shot exact / wrong amount, MPP / AMP *)
+(*    shards fitting / exceeding / other address / other total, blinded      *)
 (*    shards with a separate introduction node and with the final hop being  *)
-(*    the introduction node, other / missing blinded total, MPP record in a  *)
-(*    blinded route).                                                        *)
+(*    the introduction node, other / missing blinded total).                 *)
 (*  - PaymentStoreMCRoutes.cfg (menu RouteUniverse): the complete state      *)
 (*    space of ONE payment with every route shape of the universe (1..3      *)
 (*    hops, every position of the introduction node, custom records,         *)
@@ -18,13 +17,12 @@ EXTENDS PaymentStore
 CONSTANT MaxOps
 VARIABLE nops
 
+\* twelve admission classes, the representatives spread over the shapes
 MCDescs == {SingleR(2, Value), SingleR(1, 1),
-            MppR(2, 1, Value, 1), MppR(3, 1, Value, 2), MppR(1, 1, Value, Value),
+            MppR(2, 1, Value, 1), AmpR(3, 1, Value, 2, 1), MppR(1, 1, Value, Value),
             MppR(2, 1, Value, Value + 1), MppR(2, 2, Value, 1), MppR(2, 1, Value + 1, 1),
-            AmpR(2, 1, Value, 1, 1),
-            BlindR(1, 1, Value, 1), BlindR(0, 2, Value, 1), BlindR(0, 1, Value, Value),
-            BlindR(0, 2, Value + 1, 1), BlindR(1, 1, 0, 1),
-            BlindMppR(0, 2, Value, 1, 1)}
+            BlindR(1, 1, Value, 1), BlindR(0, 2, Value, Value), BlindR(0, 1, Value + 1, 1),
+            BlindR(1, 2, 0, 1)}
 MCReasons == {0, 1}
 
 MCInit == Init /\ nops = 0
